@@ -6,6 +6,7 @@ from vlib import refepath as rp
 LEVEL = "exploration"
 SHARDS = {"quick": 4, "thorough": 16}
 TIMEOUT = {"quick": 600, "thorough": 1800}
+MIN_EVALUATIONS = {"quick": 100000, "thorough": 100000}  # fewer oracle evaluations than this means the workload collapsed: inconclusive
 RULE = ("every path produced by LogicalSegment / request_path / tag_request_path / PortSegment / DataSegment through "
         "PADDED_EPATH.encode is parsed by the strict reference parser (vlib/refepath.py) and compared with the intended "
         "segment sequence: logical types {class, instance, member, connection_point, attribute} x values 0..65535 exhaustive "
